@@ -253,8 +253,7 @@ class LargeMatcher(Component):
         ri = [rnd.randrange(case["nr"]) for _ in range(n)]
         lk, rk = L["key"].tolist(), R["key"].tolist()
         ids = [7 * i + 3 for i in range(n)]
-        C = pd.DataFrame({"_id": ids, "lk": [lk[i] for i in li],
-                          "rk": pd.Series([rk[j] for j in ri], dtype=object)})
+        C = pd.DataFrame({"_id": ids, "lk": [lk[i] for i in li], "rk": [rk[j] for j in ri]})
         C.index = pd.Index({"range": list(range(n)), "gaps": [3 * i + 1 for i in range(n)],
                             "dup": [i // 3 for i in range(n)],
                             "str": ["c%d" % i for i in range(n)]}[case["index_kind"]])
